@@ -7,15 +7,18 @@
 (* heap index the code stores in it, and each connection has its own       *)
 (* in-flight COUNTER updated after the channel-side work.                  *)
 (*                                                                         *)
-(* Two operations OpA, OpB run concurrently from a prepared situation      *)
-(* (m1 in flight to k1; m2 queued; k2 subscribed and ready).  A step is    *)
+(* Two or three operations OpA, OpB, OpC ("NONE": absent) run concurrently *)
+(* from a prepared situation: "std" = m1 in flight to k1, m2 queued, k2     *)
+(* subscribed with RDY 0; "k2waiting" = m1 in flight to k1, queue empty, k2 *)
+(* subscribed with RDY 1 and parked in its pump's receive.  A step is      *)
 (* one segment between two verif yield points, so every behaviour TLC      *)
 (* finds is a schedule the gated replayer can force on the real daemon     *)
 (* (binding A').  The history variable `sched` is that schedule.           *)
 (***************************************************************************)
 EXTENDS Integers, Sequences, FiniteSets, TLC
 
-CONSTANTS OpA, OpB,     \* operation names, see Segs
+CONSTANTS OpA, OpB, OpC, \* operation names, see Segs ("NONE": no such actor)
+          Situation,    \* "std" | "k2waiting", see above
           Guarded,      \* removeFromInFlightPQ checks that its slot still holds the message (fix 1); FALSE = as first found
           ExitGuard,    \* REQ/TOUCH hold exitMutex.R from before the pop to the end and refuse when exiting (fix 3)
           PerMessage    \* Empty takes the discarded messages off their owners' counters (fix 2); FALSE = zeroes all counters
@@ -35,25 +38,28 @@ VARIABLES ifm,     \* in-flight map: id -> owner connection
           dropped, \* what Empty's reset discarded (id -> owner), for its counter adjustment
           exiting, \* the channel's exit flag (graceful shutdown: Channel.Close)
           disk,    \* ids written to the channel's backend by flush (what a restart will find)
-          lost     \* ids a goroutine gave up on because the channel was exiting
+          lost,    \* ids a goroutine gave up on because the channel was exiting
+          mcid     \* id -> msg.clientID: the field of the message struct StartInFlightTimeout writes and the scan reads
 
-vars == <<ifm, heap, hgen, midx, q, cnt, fin, gone, lock, crashed, pc, hold, sched, dropped, exiting, disk, lost>>
-Actors == {"A", "B"}
-Op(a) == IF a = "A" THEN OpA ELSE OpB
+vars == <<ifm, heap, hgen, midx, q, cnt, fin, gone, lock, crashed, pc, hold, sched, dropped, exiting, disk, lost, mcid>>
+Actors == {"A", "B", "C"}
+Op(a) == CASE a = "A" -> OpA [] a = "B" -> OpB [] a = "C" -> OpC
+Msgs == IF Situation = "k2waiting" THEN {"m1"} ELSE {"m1", "m2"}
 K1 == 1
 K2 == 2
 
 \* number of segments of each operation (= yield points + 1)
 Segs(op) == CASE op = "FIN" -> 3 [] op = "REQ0" -> 4 [] op = "TOUCH" -> 4 [] op = "SCAN" -> 3
-              [] op = "DELIVER" -> 4 [] op = "EMPTY" -> 3 [] op = "FIN2" -> 3 [] op = "EXIT" -> 4 [] OTHER -> 0
+              [] op = "DELIVER" -> 4 [] op = "EMPTY" -> 3 [] op = "FIN2" -> 3 [] op = "EXIT" -> 4 [] op = "DELIVERQ" -> 4 [] OTHER -> 0
 
 Init == /\ ifm = ("m1" :> K1)
         /\ heap = <<"m1">> /\ hgen = 0
         /\ midx = ("m1" :> [g |-> 0, i |-> 0]) @@ ("m2" :> [g |-> 0, i |-> -1])
-        /\ q = {"m2"}
+        /\ q = Msgs \ {"m1"}
+        /\ mcid = ("m1" :> K1) @@ ("m2" :> K2)
         /\ cnt = (K1 :> 1) @@ (K2 :> 0)
         /\ fin = {} /\ gone = {} /\ lock = "" /\ crashed = FALSE
-        /\ pc = [a \in Actors |-> 1] /\ hold = [a \in Actors |-> ""]
+        /\ pc = [a \in Actors |-> IF Segs(Op(a)) = 0 THEN 0 ELSE 1] /\ hold = [a \in Actors |-> ""]
         /\ sched = <<>> /\ dropped = <<>>
         /\ exiting = FALSE /\ disk = {} /\ lost = {}
 
@@ -131,7 +137,7 @@ Touch(a) ==
   \/ /\ pc[a] = 4 /\ HeapPush("m1") /\ Done(a)
      /\ UNCHANGED <<ifm, hgen, q, cnt, fin, gone, lock, crashed, hold>>
 
-Owner(m) == IF m = "m1" THEN K1 ELSE K2      \* msg.clientID of the message the scan popped
+Owner(m) == mcid[m]      \* msg.clientID of the message the scan popped, read when the client is looked up
 \* processInFlightQueue(t) with everything due
 Scan(a) ==
   \/ /\ pc[a] = 1 /\ ~ExitInside                          \* exitMutex.RLock for the whole function
@@ -165,10 +171,27 @@ Deliver(a) ==
                       ELSE UNCHANGED <<q, hold>> /\ Done(a)
      /\ UNCHANGED <<ifm, heap, hgen, midx, cnt, fin, gone, lock, crashed>>
   \/ /\ pc[a] = 2 /\ ifm' = (IF "m2" \in DOMAIN ifm THEN ifm ELSE ifm @@ ("m2" :> K2)) /\ Adv(a)
+     /\ mcid' = [mcid EXCEPT !["m2"] = K2]
      /\ hold' = [hold EXCEPT ![a] = ""]
      /\ UNCHANGED <<heap, hgen, midx, q, cnt, fin, gone, lock, crashed>>
   \/ /\ pc[a] = 3 /\ HeapPush("m2") /\ Adv(a) /\ UNCHANGED <<ifm, hgen, q, cnt, fin, gone, lock, crashed, hold>>
   \/ /\ pc[a] = 4 /\ cnt' = [cnt EXCEPT ![K2] = @ + 1] /\ Done(a)
+     /\ UNCHANGED <<ifm, heap, hgen, midx, q, fin, gone, lock, crashed, hold>>
+
+\* k2's pump, parked in its receive with RDY 1, takes whatever message reaches the queue (situation "k2waiting")
+DeliverQ(a) ==
+  \/ /\ pc[a] = 1 /\ q # {}                                   \* blocking receive
+     /\ \E m \in q : q' = q \ {m} /\ hold' = [hold EXCEPT ![a] = m]
+     /\ Adv(a)
+     /\ UNCHANGED <<ifm, heap, hgen, midx, cnt, fin, gone, lock, crashed>>
+  \/ /\ pc[a] = 2                                             \* msg.clientID = k2; pushInFlightMessage
+     /\ mcid' = [mcid EXCEPT ![hold[a]] = K2]
+     /\ ifm' = (IF hold[a] \in DOMAIN ifm THEN ifm ELSE ifm @@ (hold[a] :> K2)) /\ Adv(a)
+     /\ UNCHANGED <<heap, hgen, midx, q, cnt, fin, gone, lock, crashed, hold>>
+  \/ /\ pc[a] = 3 /\ HeapPush(hold[a]) /\ Adv(a)               \* addToInFlightPQ
+     /\ hold' = [hold EXCEPT ![a] = ""]
+     /\ UNCHANGED <<ifm, hgen, q, cnt, fin, gone, lock, crashed>>
+  \/ /\ pc[a] = 4 /\ cnt' = [cnt EXCEPT ![K2] = @ + 1] /\ Done(a)   \* client.SendingMessage
      /\ UNCHANGED <<ifm, heap, hgen, midx, q, fin, gone, lock, crashed, hold>>
 
 \* Channel.Empty
@@ -200,16 +223,19 @@ Step(a) == /\ pc[a] # 0 /\ ~crashed /\ Log(a)
            /\ Op(a) # "EMPTY" => dropped' = dropped
            /\ Op(a) # "EXIT" => exiting' = exiting /\ disk' = disk
            /\ (Op(a) # "REQ0" \/ pc[a] # 3) => lost' = lost
+           /\ (Op(a) \notin {"DELIVER", "DELIVERQ"} \/ pc[a] # 2) => mcid' = mcid
            /\ Op(a) = "EXIT" => UNCHANGED <<ifm, heap, hgen, midx, cnt, fin, gone, lock, crashed, hold>>
            /\ CASE Op(a) = "FIN" -> Fin(a, K1) [] Op(a) = "FIN2" -> Fin(a, K2) [] Op(a) = "REQ0" -> Req0(a)
                 [] Op(a) = "TOUCH" -> Touch(a) [] Op(a) = "SCAN" -> Scan(a) [] Op(a) = "DELIVER" -> Deliver(a)
-                [] Op(a) = "EMPTY" -> Empty(a) [] Op(a) = "EXIT" -> Exit(a)
+                [] Op(a) = "EMPTY" -> Empty(a) [] Op(a) = "EXIT" -> Exit(a) [] Op(a) = "DELIVERQ" -> DeliverQ(a)
 
 Next == \E a \in Actors : Step(a)
 Spec == Init /\ [][Next]_vars
 
 ---------------------------------------------------------------------------
-Terminal == crashed \/ \A a \in Actors : pc[a] = 0
+\* a parked receiver with nothing to receive is not going to move (nobody else is left to queue anything)
+Waiting(a) == Op(a) = "DELIVERQ" /\ pc[a] = 1 /\ q = {}
+Terminal == crashed \/ \A a \in Actors : pc[a] = 0 \/ Waiting(a)
 InFlightOf(k) == {id \in DOMAIN ifm : ifm[id] = k}
 HeapSet == {heap[i] : i \in DOMAIN heap}
 Held == {hold[a] : a \in Actors} \ {""}
@@ -224,17 +250,18 @@ EveryInFlightHasDeadline == Terminal /\ ~crashed => DOMAIN ifm = HeapSet
 \* C01/C02: every message is in exactly one place
 Places(m) == (IF m \in DOMAIN ifm THEN 1 ELSE 0) + (IF m \in q THEN 1 ELSE 0) + (IF m \in Held THEN 1 ELSE 0)
 OnePlace == Terminal /\ ~crashed =>
-               \A m \in {"m1", "m2"} :
+               \A m \in Msgs :
                   \/ Places(m) = 1 /\ m \notin fin
                   \/ Places(m) = 0 /\ (m \in fin \/ m \in gone)
 
 \* printed for the replayer: the schedule and the predicted observable outcome of every maximal behaviour
-Outcome == <<"SCHED", OpA, OpB, sched, crashed, Cardinality(DOMAIN ifm), Cardinality(q), cnt[K1], cnt[K2],
-             Cardinality(HeapSet), "m1" \in fin, "m1" \in disk, "m2" \in disk>>
+Outcome == <<"SCHED", OpA, OpB, OpC, Situation, sched, crashed, Cardinality(DOMAIN ifm), Cardinality(q), cnt[K1], cnt[K2],
+             Cardinality(HeapSet), "m1" \in fin, "m1" \in disk, "m2" \in disk,
+             Cardinality(InFlightOf(K1)), Cardinality(InFlightOf(K2))>>
 
 \* C05: whatever was acknowledged and not finished when the channel closed is on disk for the restart
 Exited == \E a \in Actors : Op(a) = "EXIT"
-RestartKeepsUnfinished == (Terminal /\ ~crashed /\ Exited) => \A m \in {"m1", "m2"} : m \in fin \/ m \in disk
+RestartKeepsUnfinished == (Terminal /\ ~crashed /\ Exited) => \A m \in Msgs : m \in fin \/ m \in disk
 FinishedStayGone == (Terminal /\ ~crashed /\ Exited) => TRUE
 Emit == Terminal => PrintT(Outcome)
 =============================================================================
